@@ -8,8 +8,8 @@ TRAITS = {"Display": "new_display", "LowerExp": "new_lower_exp", "UpperExp": "ne
 
 def check_C20(ctx, rep):
     f = ctx.facts("A")
-    check_format_ast(rep, f)
-    check_format_mir(rep, f)
+    sitemap = check_format_mir(rep, f)
+    check_format_ast(rep, f, sitemap)
     check_serde(rep, f)
     # the deserialiser's only way to a value is TwoFloat::try_from, whose gate must be Definition 1.4
     from . import rules_base
@@ -51,45 +51,25 @@ def split_top(s):
 
 IDENT = re.compile(r"^[A-Za-z_][A-Za-z0-9_]*$")
 
-def check_format_ast(rep, f):
-    sites = [x for x in f.ast.get("format_args", []) if not x["in_test"] and x["impl_self"] == "TwoFloat" and x["fn"] == "fmt"
-             and x["impl_trait"].split("::")[-1] in TRAITS]
-    by_impl = {}
-    for x in sites:
-        by_impl.setdefault(x["impl_trait"].split("::")[-1], []).append(x)
+def check_format_ast(rep, f, sitemap):
+    """template of every format_args! reached from the three fmt bodies; which flag combination a site serves
+    is read from the paths of the compiled body (sitemap: trait -> {site: {(plus, precision)}})"""
+    allsites = [x for x in f.ast.get("format_args", []) if not x["in_test"]]
+    n_sites = 0
     for tr in TRAITS:
-        got = by_impl.get(tr, [])
+        reach = sitemap.get(tr, {})
+        got = [x for x in allsites if x.get("uspan", x["span"]) in reach and (x["impl_trait"].split("::")[-1] == tr or x["impl_self"] != "TwoFloat")]
+        n_sites += len(got)
+        missing = sorted(set(reach) - {x.get("uspan", x["span"]) for x in got})
+        if missing:
+            rep.fail("R53", "%s sites" % tr, "fmt-site-unmatched:" + tr, "format_args! reached from %s::fmt at %s has no template record in the expanded AST" % (tr, missing))
         combos = set()
         for x in got:
-            plus = None; prec = None; bind = None
-            for c in x["conds"]:
-                if "if" in c and re.sub(r"\s", "", c["if"]).endswith(".sign_plus()"):
-                    plus = c["branch"]
-                if "match" in c and re.sub(r"\s", "", c["match"]).endswith(".precision()"):
-                    m = re.match(r"^Some\((\w+)\)$", c["pat"].strip())
-                    if m:
-                        prec = True; bind = m.group(1)
-                    elif c["pat"].strip() == "None":
-                        prec = False
-                if "match" in c:
-                    # flat form: match (f.sign_plus(), f.precision()) { (true, Some(p)) => .. }
-                    sc = re.sub(r"\s", "", c["match"]); pt = re.sub(r"\s", "", c["pat"])
-                    ms = re.match(r"^\((.*)\)$", sc); mp = re.match(r"^\((.*)\)$", pt)
-                    if ms and mp:
-                        se = split_top(ms.group(1)); pe = split_top(mp.group(1))
-                        if len(se) == len(pe):
-                            for sx, px in zip(se, pe):
-                                if sx.endswith(".sign_plus()") and px in ("true", "false"):
-                                    plus = (px == "true")
-                                if sx.endswith(".precision()"):
-                                    m2 = re.match(r"^Some\((\w+)\)$", px)
-                                    if m2:
-                                        prec = True; bind = m2.group(1)
-                                    elif px == "None":
-                                        prec = False
+            cs = reach[x.get("uspan", x["span"])]
+            plus, prec = (sorted(cs)[0] if len(cs) == 1 else (None, None))
             inst = "%s{%s%s}" % (tr, "+" if plus else "", ".p" if prec else "")
             if plus is None or prec is None:
-                rep.fail("R53", inst, "fmt-conds:%s:%s" % (tr, x["span"].split(":")[0]), "format_args! in %s::fmt is not under the f.sign_plus() / f.precision() case split: %s" % (tr, x["conds"]), where=x["span"]); continue
+                rep.fail("R53", inst, "fmt-conds:%s:%s" % (tr, x["span"].split(":")[0]), "format_args! in %s::fmt serves several flag combinations %s; each of {plain, +, .p, +.p} needs its own template" % (tr, sorted(cs)), where=x["span"]); continue
             combos.add((plus, prec))
             ps = x["pieces"]; args = x["args"]
             shape = [("ph" if "ph" in p else "lit") for p in ps]
@@ -102,15 +82,15 @@ def check_format_ast(rep, f):
                 def clean(p): return not p["alternate"] and not p["zero_pad"] and p["fill"] is None and p["align"] is None and p["width"] is None
                 def prec_ok(p):
                     if prec:
-                        return isinstance(p["precision"], dict) and "arg" in p["precision"] and re.sub(r"\s", "", args[p["precision"]["arg"]]) == bind
+                        # taken from an argument; every precision argument is f.precision()'s value (checked on the compiled body)
+                        return isinstance(p["precision"], dict) and p["precision"].get("arg") is not None
                     return p["precision"] is None
-                if arg(p1) not in ("self.hi", "self.hi()") and not IDENT.match(arg(p1) or ""): errs.append("first numeral formats %s, not self.hi" % arg(p1))
+                # (which values the placeholders print - hi, the sign character, fabs(lo), in this order - is decided on the compiled body: R53m)
                 if p1["trait"] != tr: errs.append("first numeral uses {:%s} inside %s" % (p1["trait"], tr))
                 if (p1["sign"] == "Plus") != bool(plus) or (p1["sign"] not in (None, "Plus")): errs.append("'+' flag on the first numeral is %s in the %s branch" % (p1["sign"], "sign_plus" if plus else "plain"))
                 if not prec_ok(p1): errs.append("precision of the first numeral is %s" % (p1["precision"],))
                 if not clean(p1): errs.append("extra format options on the first numeral")
-                if not IDENT.match(arg(p2) or "") or p2["trait"] != "Display" or p2["sign"] or p2["precision"] or not clean(p2): errs.append("middle placeholder is not a plain character")
-                if arg(p3) not in ("libm::fabs(self.lo)", "libm::fabs(self.lo())") and not IDENT.match(arg(p3) or ""): errs.append("last numeral formats %s, not |self.lo|" % arg(p3))
+                if p2["trait"] != "Display" or p2["sign"] or p2["precision"] or not clean(p2): errs.append("middle placeholder is not a plain character")
                 if p3["trait"] != tr: errs.append("last numeral uses {:%s} inside %s" % (p3["trait"], tr))
                 if p3["sign"] is not None: errs.append("last numeral carries a sign flag")
                 if not prec_ok(p3): errs.append("precision of the last numeral is %s" % (p3["precision"],))
@@ -119,12 +99,13 @@ def check_format_ast(rep, f):
                       detail="'{hi} {sign_char} {|lo|}' trait %s, '+' %s, precision %s" % (tr, "on hi only" if plus else "absent", "forwarded to both numerals" if prec else "absent"))
         rep.check(combos == {(True, True), (True, False), (False, True), (False, False)}, "R53", "%s covers {plain, +, .p, +.p}" % tr, "fmt-combos:" + tr,
                   "%s::fmt does not have one format_args! per flag combination: %s" % (tr, sorted(combos)), nontrivial=False)
-    rep.floor("R53", len(sites), 12, "format_args! sites in the three fmt impls")
+    rep.floor("R53", n_sites, 12, "format_args! sites reached from the three fmt impls")
 
 # ------------------------------------------------------------------ R53 (MIR wiring)
 
 def check_format_mir(rep, f):
     templates = {}
+    sitemap = {}
     for tr, ctor in TRAITS.items():
         ident = "<TwoFloat as core::fmt::%s>::fmt" % tr
         b = f.get(ident)
@@ -157,6 +138,14 @@ def check_format_mir(rep, f):
             plus = any(tag(c) == "call" and "sign_plus" in c[1] and v is True for c, v in path)
             prec = any(tag(c) == "discr" and tag(c[1]) == "call" and "precision" in c[1][1] and v == 1 for c, v in path)
             templates.setdefault((plus, prec), {}).setdefault(tr, set()).add(tmpl)
+            site = wf[0][-1][1] if tag(wf[0][-1]) == "site" else None
+            sitemap.setdefault(tr, {}).setdefault(site, set()).add((plus, prec))
+            pv = mk("field", mk("downcast", mk("call", "core::fmt::Formatter::<>::precision", P(1)), "Some"), 0)
+            precs = [x for x in items if tag(x) == "call" and x[1].startswith("core::fmt::rt::Argument::<>::from_usize")]
+            if (prec and (len(precs) != 2 or any(x[2] is not pv for x in precs))) or (not prec and precs):
+                errs.append("precision arguments are not f.precision()'s value for both numerals exactly when a precision was requested")
+            if len(items) != 3 + len(precs):
+                errs.append("unexpected extra arguments")
             nums = [x for x in items if tag(x) == "call" and x[1].startswith("core::fmt::rt::Argument::<>::new_") and x[1].endswith("<f64>")]
             chars = [x for x in items if tag(x) == "call" and x[1] == "core::fmt::rt::Argument::<>::new_display<char>"]
             if len(nums) != 2 or len(chars) != 1:
@@ -183,6 +172,7 @@ def check_format_mir(rep, f):
             allt |= ts
         rep.check(len(allt) == 1 and len(d) == 3, "R53x", "template agreement plus=%s precision=%s" % combo, "fmt-template:%s:%s" % combo,
                   "the three fmt impls compile different templates for the flag combination plus=%s precision=%s" % combo, detail="identical compiled template in Display/LowerExp/UpperExp", nontrivial=False)
+    return sitemap
 
 # ------------------------------------------------------------------ R54 serde
 
